@@ -1343,6 +1343,13 @@ class C11(Prop):
             if isinstance(z, list) and isinstance(v, list) and len(z) == len(v) and len(v) > 2 and v[0] == 's' and z[0] == 's':
                 # some positions default, the others not
                 out.append(show(['val', t, [v[0]] + [zi if r.random() < 0.5 else vi for zi, vi in zip(z[1:], v[1:])]]))
+        # values that fill exactly 1..4 chunks (a full Bitlist[256], ...), values with all-zero tails
+        out += chunk_exact_cases(g, max(24, self.n(tier) // 12))
+        for t_, v_ in zero_tail_cases(g, max(8, self.n(tier) // 40)):
+            out.append(show(['val', t_, v_]))
+        for nb in (256, 512, 1024):
+            out.append(show(['val', ['bl', nb], 'b' + ''.join(r.choice('01') for _ in range(nb))]))
+            out.append(show(['val', ['cont', 'u8', ['bl', nb]], ['s', '1', 'b' + '1' * nb]]))
         # the reported length of every held view after every step of a history of mutations through child views
         for _ in range(self.n(tier) // 10):
             t = nested_ty(g, r.choice([1, 2, 2]))
@@ -1626,6 +1633,7 @@ class C15(ValProp):
 
     def generate(self, g, tier, focus=None):
         out = ValProp.generate(self, g, tier)
+        out += self.dec_cases(g, tier)
         table = ['u8', 'u64', 'u256', 'bool', ['cont', 'u8', 'u16'], ['Bv', 4], ['list', 'u8', 3]]
         step = 7 if tier == 'quick' else 1
         for et in table:
@@ -1698,8 +1706,38 @@ class C15(ValProp):
             return ['L', c.hex()]
         return ['P', self.full_tree(g, d - 1), self.full_tree(g, d - 1)]
 
+    def dec_cases(self, g, tier):
+        # values that come out of the decoders (valid encodings and near-valid ones that may be accepted): bit fields
+        r = g.rng
+        out = []
+        for _ in range(max(40, self.n(tier) // 5)):
+            k = r.choice(['bv', 'bl'])
+            nb = r.choice([1, 3, 5, 7, 9, 12, 15, 250, 255, 257, 300])
+            t = [k, nb]
+            nbytes = (nb + 7) // 8 if k == 'bv' else r.randint(1, nb // 8 + 1)
+            raw = bytearray(r.getrandbits(8) for _ in range(nbytes))
+            if k == 'bv' and nb % 8:
+                # the unused high bits of the last byte: clear them, or leave exactly the lowest of them set
+                raw[-1] &= (1 << (nb % 8)) - 1
+                if r.random() < 0.5:
+                    raw[-1] |= 1 << (nb % 8)
+            w = r.random()
+            if w < 0.3:
+                out.append(show(['dec', ['cont', 'u8', t] if k == 'bv' else ['cont', 'u8', t], 'x', 'x' + (bytes([7]) + (b'' if k == 'bv' else bytes([5, 0, 0, 0])) + bytes(raw)).hex(), 'x']))
+            else:
+                out.append(show(['dec', t, 'x', 'x' + bytes(raw).hex(), 'x']))
+        return out
+
     def compare(self, case, py, mo, stats):
         out = []
+        if case[0] == 'dec':
+            bump(stats, 'kinds', 'decoded:' + kind(case[1]))
+            if py.get('p.dec') not in (None, 'err') and py.get('p.eqcontent') not in (None, '111'):
+                out.append(F('prop', 'a decoded value is not equal (==, root, hash) to a fresh value holding the content it shows', py.get('p.eqcontent'), '111'))
+            for route in ('iter', 'roiter'):
+                if py.get('p.dec') not in (None, 'err') and py.get('p.read.' + route) not in (None, py.get('p.dec')):
+                    out.append(F('prop', 'read via %s of a decoded value differs from indexing' % route, py.get('p.read.' + route), py.get('p.dec')))
+            return out
         if case[0] == 'tree':
             for i, c in enumerate(case[2:]):
                 p = '%d.' % i
@@ -1831,6 +1869,13 @@ class C07(Prop):
     def generate(self, g, tier, focus=None):
         r = g.rng
         out = []
+        # zero summaries of the greatest heights the zero-hash table has (255, 254, 253) and one beyond the usual ones:
+        # their roots, reads below them, and writes that expand them all the way down
+        for d_ in (255, 254, 253, 200, 64):
+            gi_ = (1 << d_) | g.rng.getrandbits(d_ - 1)
+            out.append(show(['tree', ['Z', d_], ['get', 1], ['set', gi_, 1, ['L', g.chunk().hex()], gi_, gi_ >> 1, gi_ ^ 1, 2, 3],
+                             ['set', 1 << d_, 1, ['Z', 0], 1 << d_], ['set', gi_, 0, ['L', g.chunk().hex()], 1]]))
+            out.append(show(['tree', ['P', ['Z', d_ - 1], ['L', g.chunk().hex()]], ['get', 2], ['set', (1 << d_) | 1, 1, ['L', g.chunk().hex()], 2, 3, (1 << d_) | 1]]))
         for _ in range(self.n(tier)):
             d = r.choice([0, 1, 2, 3, 4, 5])
             tr = g.tree(d, r.choice([0.1, 0.3, 0.5]))
@@ -1997,6 +2042,19 @@ class C18(Prop):
                     first = self.sx_put(base, gt, ['L', self.sx_root(up).hex()])
                     h2 = [later] + ([self.write_full(g, later, d)] if r.random() < 0.5 else [])
                     out.append(show(['tree', first, ['hist', gt] + h2, ['hist', gt >> 1] + h2, ['hist', gt ^ 1] + h2]))
+            if r.random() < 0.08:
+                # right / left spines of 54+ levels: targets whose generalized index needs more than 53 bits
+                dd = r.choice([54, 55, 60, 64])
+                right = r.random() < 0.6
+
+                def spine(leaf):
+                    tr_ = leaf
+                    for lvl in range(dd):
+                        tr_ = ['P', ['Z', lvl], tr_] if right else ['P', tr_, ['Z', lvl]]
+                    return tr_
+                gt = (1 << (dd + 1)) - 1 if right else (1 << dd)
+                t0, t1_, t2_ = spine(['L', g.chunk().hex()]), spine(['L', g.chunk().hex()]), spine(['L', g.chunk().hex()])
+                out.append(show(['tree', t0, ['hist', gt, t1_, t1_, t2_, t0], ['hist', gt >> 1, t1_, t2_], ['hist', gt ^ 1, t1_]]))
             if r.random() < 0.5:
                 # same root, different shape: zero summaries against (partially) expanded zero subtrees
                 tz = g.tree(r.choice([2, 3, 4]), 0.4)
@@ -2192,6 +2250,13 @@ class C08(Prop):
                     out.append(show(['pathv', tt, vv] + ([1] if wrap else []) + [key] + tail))
             if kind(e) in ('list', 'bl'):
                 out.append(show(['pathv', tt, vv] + ([1] if wrap else []) + [0, len(v[1]) - 1 if isinstance(v[1], str) else len(v[1]) - 1]))
+        # unions with up to 128 options: every selector key from 63 on
+        for nopt in (65, 100, 128):
+            u = ['union'] + (['none'] if r.random() < 0.5 else []) + [r.choice(['u8', 'u16', ['list', 'u8', 2]]) for _ in range(nopt - 1)]
+            u = u[:nopt + 1]
+            for key in sorted({1, 63, 64, 65, nopt - 2, nopt - 1, nopt}):
+                out.append(show(['path', u, key]))
+            out.append(show(['path', u, 'sel']))
         # the EMPTY path (the anchor itself: generalized index 1), alone and concatenated
         for _ in range(max(4, self.n(tier) // 40)):
             t = g.ty(r.choice([1, 2]), composite_only=True)
@@ -2393,6 +2458,33 @@ class StoreProp(Prop):
             # one in four histories runs LAZILY: nothing is hashed or read before the end
             out.append(show(['storel' if k % 3 == 2 or k % 10 in (5, 6) else 'store', t, v] + ops))
         out += stale_cases(g, max(10, self.n(tier) // 10))
+        # packed sequences (also bit fields) as ROOT views: read, copy, then element writes on either side (observed after every step)
+        for _ in range(max(8, self.n(tier) // 12)):
+            e = r.choice(['u8', 'u16', 'u64', 'bool', 'u128'])
+            per = 32 // UINT_W.get(e, 1)
+            ln = per * r.choice([1, 2]) + r.choice([0, 1, per - 1])
+            if r.random() < 0.25:
+                t, v = r.choice([['bv', 300], ['bl', 600]]), g.bits(300)
+            elif r.random() < 0.5:
+                t, v = ['vec', e, ln], ['s'] + [g.val(e, 1) for _ in range(ln)]
+            else:
+                t, v = ['list', e, ln + r.choice([0, 3, 100])], ['s'] + [g.val(e, 1) for _ in range(ln)]
+            sg = StoreGen(g, t, v)
+            sg.views.append(dict(t=t, v=v, hook=None, kids=False))
+            ops = [['copy', 0]]
+            for _k in range(r.choice([4, 8])):
+                i = r.randrange(len(sg.views))
+                vw = sg.views[i]
+                n_ = len(vw['v']) - 1
+                op = ['set', r.randrange(n_), (g.val(e, 1) if kind(t) in ('vec', 'list') else r.choice('01'))]
+                from gen import _apply_val
+                vw['v'] = _apply_val(vw['t'], vw['v'], op)
+                ops.append(['mut', i, op])
+                if r.random() < 0.3 and len(sg.views) < 5:
+                    j = r.randrange(len(sg.views))
+                    sg.views.append(dict(t=t, v=sg.views[j]['v'], hook=None, kids=False))
+                    ops.append(['copy', j])
+            out.append(show(['store', t, v] + ops))
         # ROOT unions (no enclosing view) whose selected option is a composite: snapshot and copy first, then writes through
         # freshly obtained value views of the original and of the copy
         for _ in range(max(8, self.n(tier) // 12)):
@@ -2468,6 +2560,13 @@ class C06(StoreProp):
     def compare(self, case, py, mo, stats):
         bump(stats, 'kinds', kind(case[1]))
         out = self.compare_store(case, py, mo, stats, 'snaps')
+        if not out and case[0] == 'store':
+            for i, op in enumerate(case[3:]):
+                fl = py.get('%d.reads' % i)
+                if fl is not None and set(fl) - {'1'}:
+                    out.append(F('prop', 'indexing / iteration of a held view (a copy, the original) disagree with the content of its own encoding after op %d %s '
+                                 '(one flag per held view)' % (i, show(op)), fl, 'all 1'))
+                    break
         if not out:
             out = [f for f in self.compare_store(case, py, mo, None, 'views')]
             for f in out:
@@ -2764,6 +2863,21 @@ class C17(Prop):
             i = r.choice(ck)
             ops = [['childroot', i], ['elem', i], ['childroot', r.choice(ck)], ['root'], ['sub', i, ['pop']] if False else ['len'], ['childroot', i]]
             out.append(show(['partial', t, v, ['pos', base | i]] + ops))
+        # pop / overwrite of an element whose own subtree is summarised (byte arrays are read as a whole when read, but a pop
+        # or an overwrite does not need the old content)
+        for _ in range(self.n(tier) // 8):
+            e = r.choice([['Bv', 48], ['Bv', 96], ['Bl', 70], ['Bv', 33], ['cont', 'u64', 'u64', 'u64']])
+            ln = r.choice([1, 2, 3, 4, 5])
+            lim = r.choice([ln, 8, 9, 16])
+            t = ['list', e, lim]
+            v = ['s'] + [g.val(e, 3) for _ in range(ln)]
+            d = _get_depth(lim)
+            elem_g = (2 << d) | (ln - 1)
+            pos = ['pos', r.choice([elem_g, elem_g * 2, elem_g * 2 + 1])]
+            ops = [['root'], ['pop'], ['root'], ['len'], ['app', g.val(e, 3)], ['set', ln - 1, g.val(e, 3)], ['read']]
+            if r.random() < 0.5:
+                ops = [['set', ln - 1, g.val(e, 3)], ['elem', ln - 1], ['root']]
+            out.append(show(['partial', t, v, pos] + ops))
         # size queries: containers with dynamic fields next to multi-chunk fixed-size fields, one field summarised
         for _ in range(self.n(tier) // 6):
             fx = lambda: r.choice([['Bv', 48], ['Bv', 96], ['vec', 'u64', 8], ['cont', 'u64', 'u64', 'u8'], 'u16', ['bv', 300], ['Bv', 32]])
